@@ -15,6 +15,7 @@ EXPLANATION = (
     "ones are live; all five registries must be read, keyed windows by membership of the candidate, the hold-back queue by "
     "its requests' identifiers, and (ID-SCAN) every non-returning iteration of those loops performs the test or runs the "
     "nested loop that does - no entry is skipped under another condition, no early break before the candidate was found. "
+    "ID-INUSE also: no registry read of the scan sits under a test on the factory's own state (a profile-dependent scan leaves the other profile's windows unread). "
     "ID-SCAN also: in the factory module no one-shot iterator (generator call, generator expression, iter/map/filter/zip/reversed/enumerate) is bound once and consumed on every turn of a loop or twice - the later consumption sees the unread tail only. "
     "Absence of collisions over concrete histories is not decided.")
 ASSUMPTIONS = []
